@@ -4,7 +4,7 @@
    bytes: every element below 256 - only needed for RTU, where a byte count is added to an
    offset). Names are stable; the C07 round assembles them. *)
 From Coq Require Import NArith List Bool Arith Lia.
-From Rodbus Require Import Base.Outcome Base.Frame Gen.Consts Gen.RtuLengths Model.Buffer Model.Mbap Model.Rtu Model.Reader
+From Rodbus Require Import Base.Outcome Base.Frame Gen.Consts Gen.RtuLengths Model.Buffer Model.Mbap Model.Rtu Model.Reader Spec.Framing
   Proofs.BufferProofs Proofs.ReaderGeneric Proofs.MbapProofs Proofs.RtuProofs Proofs.C05Proofs.
 Import ListNotations.
 
